@@ -169,8 +169,13 @@ impl<Endpoint: Ord + Clone> BlockHandler<Endpoint> {
                         MessageClass::Response(ResponseType::Continue);
                     Ok(true)
                 } else {
-                    let cached_payload =
+                    let mut cached_payload =
                         mem::take(&mut state.cached_request_payload).unwrap();
+                    // The final block ends the body: drop whatever an earlier,
+                    // abandoned upload left behind it.
+                    cached_payload.truncate(
+                        payload_offset + request.message.payload.len(),
+                    );
                     request.message.payload = cached_payload;
 
                     // This is a little bit hacky, we really should be doing
